@@ -108,8 +108,18 @@ func (m *MemFile) tick(kind IOKind, off int64, n int, data []byte) (rec *IORec, 
 	return rec, fail
 }
 
+// done is the second yield point of a file call: after the call took effect
+// and before its result reaches gkvlite (a blocking call may be overtaken both
+// before it starts and before it returns).
+func (m *MemFile) done() {
+	if m.Yield != nil {
+		m.Yield("io-done")
+	}
+}
+
 func (m *MemFile) ReadAt(p []byte, off int64) (int, error) {
 	_, fail := m.tick(IORead, off, len(p), nil)
+	defer m.done()
 	if fail {
 		return 0, errInjected
 	}
@@ -143,6 +153,7 @@ func (m *MemFile) writeRaw(p []byte, off int64) {
 
 func (m *MemFile) WriteAt(p []byte, off int64) (int, error) {
 	_, fail := m.tick(IOWrite, off, len(p), p)
+	defer m.done()
 	if off < 0 {
 		return 0, errors.New("memfile: negative offset")
 	}
@@ -179,6 +190,7 @@ func (m *MemFile) WriteAt(p []byte, off int64) (int, error) {
 
 func (m *MemFile) Stat() (os.FileInfo, error) {
 	_, fail := m.tick(IOStat, 0, 0, nil)
+	defer m.done()
 	if fail {
 		return nil, errInjected
 	}
@@ -187,6 +199,7 @@ func (m *MemFile) Stat() (os.FileInfo, error) {
 
 func (m *MemFile) Truncate(sz int64) error {
 	_, fail := m.tick(IOTrunc, sz, 0, nil)
+	defer m.done()
 	if fail {
 		return errInjected
 	}
